@@ -844,9 +844,22 @@ func checkHashTag(c *Ctx, fn *ssa.Function) {
 				got := ""
 				if r == ssa.Value(prm) {
 					got = "whole"
-				} else if sl, ok := r.(*ssa.Slice); ok && sl.X == ssa.Value(prm) && sl.Max == nil && sl.Low != nil && sl.High != nil {
-					lo, ok1 := lin(sl.Low)
+				} else if sl, ok := r.(*ssa.Slice); ok && sl.Max == nil && sl.High != nil && sliceBaseIs(sl, prm) {
+					// b[lo:hi], or rest[lo':hi'] with rest = b[s:]: positions relative to b
+					off, okOff := affConst(0), true
+					if inner, isIn := sl.X.(*ssa.Slice); isIn {
+						off, okOff = lin(inner.Low)
+					}
+					lo, ok1 := affConst(0), true
+					if sl.Low != nil {
+						lo, ok1 = lin(sl.Low)
+					}
 					hi, ok2 := lin(sl.High)
+					if okOff {
+						lo, hi = lo.add(off, 1), hi.add(off, 1)
+					} else {
+						ok1 = false
+					}
 					got = "other slice"
 					if ok1 && ok2 {
 						l1, r1, c1 := affCmp(lo, affVar("I").add(affConst(1), 1))
@@ -884,4 +897,15 @@ func checkHashTag(c *Ctx, fn *ssa.Function) {
 			c.Fail("O4", site, at, verdict)
 		}
 	}
+}
+
+// sliceBaseIs: sl slices prm directly, or slices a suffix prm[s:] of it.
+func sliceBaseIs(sl *ssa.Slice, prm ssa.Value) bool {
+	if sl.X == prm {
+		return sl.Low != nil
+	}
+	if inner, ok := sl.X.(*ssa.Slice); ok && inner.X == prm && inner.High == nil && inner.Max == nil && inner.Low != nil {
+		return true
+	}
+	return false
 }
